@@ -66,3 +66,75 @@ Print Assumptions C20_paths_nonvacuous.
 Print Assumptions C20_encoder_reports_the_frame_bytes.
 Print Assumptions C20_source_finish_paths.
 Print Assumptions C20_source_reply_size_added_once.
+
+(* ---- the source itself refines the record state machine: rpc/instrument.go's IncrementSize / EndCall / RecordAndFinish /
+   Finish, translated statement by statement (Generated.golite_funcs) and run by the GoLite interpreter (Model/GoLite.v),
+   do exactly what Instrument.istep says, on EVERY model state, as long as the int64 size does not overflow (the hand
+   model counts in unbounded Z; the last theorem says what the source does beyond that).  The storage's Put is an external
+   call: it is recorded (callee, evaluated arguments, among them the record with its current Size) and its result is the
+   oracle value VExt k of the k-th recorded call.  tag, Ctime, storage and the context are arbitrary. ---- *)
+From FMP Require Import Model.GenTypes Model.Generated Model.GoLite Proofs.GoLiteProofs Proofs.GoLiteInstrProofs.
+
+Section SourceRefinement.
+  Variable permI : nat -> nat -> list nat.
+  Variable tag : list N.
+  Variables ctime storage : val.
+  Local Notation irepr := (GoLiteInstrProofs.irepr tag ctime storage).
+  Local Notation put_event := (GoLiteInstrProofs.put_event tag ctime).
+
+  (* ends normally in the state representing the model's next state: no effect recorded (effects = []), the mutex
+     acquired and released exactly once (acq = rel = 1, held = []) *)
+  Theorem C20_source_increment_refines_model : forall fuel dur s n, (1 <= fuel)%nat ->
+      in_range64 (i_size s) -> in_range64 n -> in_range64 (i_size s + n) ->
+      run_fun_args permI fuel golite_funcs name_increment [VInt n] (irepr dur s) =
+      RNormal (with_mutex 1 1 (irepr dur (fst (fst (istep s (IIncrement n)))))).
+  Proof. exact (golite_increment_refines permI tag ctime storage). Qed.
+
+  (* not finished: exactly one Put carrying the current size, the record becomes finished, the Put's result is returned;
+     finished: no Put, state unchanged, "record already finished" is returned *)
+  Theorem C20_source_finish_refines_model : forall fuel dur s ctx, (1 <= fuel)%nat ->
+      run_fun_args permI fuel golite_funcs name_finish [ctx] (irepr dur s) =
+      RReturn (finish_result (snd (istep s IFinish)))
+              (with_effects (map (put_event ctx dur) (snd (fst (istep s IFinish))))
+                 (with_mutex 1 1 (irepr dur (fst (fst (istep s IFinish)))))).
+  Proof. exact (golite_finish_refines permI tag ctime storage). Qed.
+
+  (* IncrementSize, EndCall, Finish in this order (three lock/unlock pairs); on a finished record the size is still
+     incremented and nothing is put *)
+  Theorem C20_source_record_and_finish_refines_model : forall fuel dur s ctx n, (2 <= fuel)%nat ->
+      in_range64 (i_size s) -> in_range64 n -> in_range64 (i_size s + n) ->
+      run_fun_args permI fuel golite_funcs name_raf [ctx; VInt n] (irepr dur s) =
+      RReturn (finish_result (snd (istep s (IRecordAndFinish n))))
+              (with_effects (map (put_event ctx dur_after) (snd (fst (istep s (IRecordAndFinish n)))))
+                 (with_mutex 3 3 (irepr dur_after (fst (fst (istep s (IRecordAndFinish n))))))).
+  Proof. exact (golite_record_and_finish_refines permI tag ctime storage). Qed.
+
+  (* without the no-overflow hypothesis the stored size is the 64-bit two's complement wrap of the sum *)
+  Theorem C20_source_size_wraps_at_2_63 : forall fuel dur s n, (1 <= fuel)%nat ->
+      run_fun_args permI fuel golite_funcs name_increment [VInt n] (irepr dur s) =
+      RNormal (with_mutex 1 1 (irepr dur (mkInst (wrap 64 (i_size s + n)) (i_finished s)))).
+  Proof. exact (golite_increment_wraps permI tag ctime storage). Qed.
+End SourceRefinement.
+
+(* nothing of the four translated bodies fell outside the translator's subset *)
+Theorem C20_source_translation_complete :
+  forallb (fun nm => match lookup nm golite_funcs with
+                     | Some g => forallb stmt_ok (gf_body g)
+                     | None => false
+                     end) instr_names = true.
+Proof. exact golite_instr_no_unsupported. Qed.
+
+(* a concrete record: increment 5, record-and-finish 7 puts size 12 once; from 2^63-1 one more byte stores -2^63 *)
+Example ex_source_chain_sizes : snd (irun inst0 [IIncrement 5; IRecordAndFinish 7; IFinish]) = [12%Z].
+Proof. exact ex_golite_instr_matches_model. Qed.
+Example ex_source_wraps :
+  run_fun_args ex_permI 1 golite_funcs name_increment [VInt 1]
+               (GoLiteInstrProofs.irepr [] VUnit VPtr VUnit (mkInst (2 ^ 63 - 1) false)) =
+  RNormal (with_mutex 1 1 (GoLiteInstrProofs.irepr [] VUnit VPtr VUnit (mkInst (- 2 ^ 63) false))).
+Proof. exact ex_golite_increment_wraps. Qed.
+
+Print Assumptions C20_source_increment_refines_model.
+Print Assumptions C20_source_finish_refines_model.
+Print Assumptions C20_source_record_and_finish_refines_model.
+Print Assumptions C20_source_size_wraps_at_2_63.
+Print Assumptions C20_source_translation_complete.
